@@ -147,43 +147,28 @@ structure EntryLayout where
 `cursor.position()?`, 3 bytes (2 when id strings are present); with `PATCH_FORMAT`:
 `cursor.position()?`, one byte; the rest is codepoint data; `finish`.  `none` = `OutOfBounds`. -/
 def entryLayout (hasIds : Bool) (d : List Nat) : Option EntryLayout :=
-  match readAt d 0 1 with
-  | none => none
-  | some flags =>
-    let hasF := flags % 2 = 1
-    let hasC := flags / 2 % 2 = 1
-    let hasD := flags / 4 % 2 = 1
-    let hasP := flags / 8 % 2 = 1
-    -- features and design space
-    match (if hasF then readAt d 1 1 else some 0) with
-    | none => none
-    | some fc =>
-      let tagsAt := 2
-      let p1 := if hasF then 2 + fc * 4 else 1
-      if hasF ∧ ¬ p1 ≤ d.length then none else
-      match (if hasF then readAt d p1 2 else some 0) with
-      | none => none
-      | some dsc =>
-        let segsAt := p1 + 2
-        let p2 := if hasF then p1 + 2 + dsc * 12 else p1
-        -- child indices
-        if hasC ∧ ¬ p2 ≤ d.length then none else
-        match (if hasC then readAt d p2 1 else some 0) with
-        | none => none
-        | some mmc =>
-          let childAt := p2 + 1
-          let p3 := if hasC then p2 + 1 + (mmc % 128) * 3 else p2
-          -- entry id delta
-          if hasD ∧ ¬ p3 ≤ d.length then none else
-          let deltaLen := if hasIds then 2 else 3
-          let p4 := if hasD then p3 + deltaLen else p3
-          -- patch format
-          if hasP ∧ ¬ p4 ≤ d.length then none else
-          let p5 := if hasP then p4 + 1 else p4
-          if p5 ≤ d.length then
-            some { flags, fc, tagsAt, dsc, segsAt, mmc, childAt, deltaAt := p3, deltaLen, fmtAt := p4,
-                   cpAt := p5 }
-          else none
+  let len := d.length
+  let flags := beAt d 0 1
+  let hasF := flags % 2 = 1
+  let hasC := flags / 2 % 2 = 1
+  let hasD := flags / 4 % 2 = 1
+  let hasP := flags / 8 % 2 = 1
+  let fc := if hasF then beAt d 1 1 else 0
+  let p1 := if hasF then 2 + fc * 4 else 1
+  let dsc := if hasF then beAt d p1 2 else 0
+  let p2 := if hasF then p1 + 2 + dsc * 12 else p1
+  let mmc := if hasC then beAt d p2 1 else 0
+  let p3 := if hasC then p2 + 1 + (mmc % 128) * 3 else p2
+  let deltaLen := if hasIds then 2 else 3
+  let p4 := if hasD then p3 + deltaLen else p3
+  let p5 := if hasP then p4 + 1 else p4
+  -- every `cursor.read()?` / `cursor.position()?` failure is the same `OutOfBounds` and the cursor
+  -- only moves forward: the walk succeeds iff each of its checks passes
+  if 1 ≤ len ∧ (hasF → 2 ≤ len ∧ p1 + 2 ≤ len) ∧ (hasC → p2 + 1 ≤ len) ∧ (hasD → p3 ≤ len) ∧
+      (hasP → p4 ≤ len) ∧ p5 ≤ len then
+    some { flags, fc, tagsAt := 2, dsc, segsAt := p1 + 2, mmc, childAt := p2 + 1, deltaAt := p3, deltaLen,
+           fmtAt := p4, cpAt := p5 }
+  else none
 
 /-- the range checks of the getters `decode_format2_entry` calls (`feature_tags`,
 `design_space_segments`, `match_mode_and_count`, `child_indices`, `entry_id_delta`, `patch_format`,
